@@ -20,97 +20,143 @@ func init() {
 			New: "\t\tcase msg := <-outerBuffer:\n\t\t\tif typ := msg.Type(); typ != qbft.MsgPrepare && typ != qbft.MsgCommit {\n\t\t\t\tt.setValues(msg)\n\t\t\t}\n"},
 		Mutant{ID: "C04-T10-first-deadline-not-remembered", File: "core/consensus/timer/roundtimer.go", Expect: "T10",
 			Old: "\t\t\tdeadline = t.clock.Now().Add(timeout)\n\t\t}\n\n\t\tt.firstDeadlines[round] = deadline\n\t}\n\n\ttimer := t.clock.NewTimer(deadline.Sub(t.clock.Now()))\n\n\treturn timer.Chan(), func() { timer.Stop() }\n}\n\n// linearRoundTimer",
-			New: "\t\t\tdeadline = t.clock.Now().Add(timeout)\n\t\t\tt.firstDeadlines[round] = deadline\n\t\t}\n\t}\n\n\ttimer := t.clock.NewTimer(deadline.Sub(t.clock.Now()))\n\n\treturn timer.Chan(), func() { timer.Stop() }\n}\n\n// linearRoundTimer"})
+			New: "\t\t\tdeadline = t.clock.Now().Add(timeout)\n\t\t\tt.firstDeadlines[round] = deadline\n\t\t}\n\t}\n\n\ttimer := t.clock.NewTimer(deadline.Sub(t.clock.Now()))\n\n\treturn timer.Chan(), func() { timer.Stop() }\n}\n\n// linearRoundTimer"},
+		Mutant{ID: "C04-T9-forward-before-caching", File: "core/consensus/qbft/transport.go", Expect: "T9",
+			Old: "\t\t\tt.setValues(msg)\n\n\t\t\tselect {\n\t\t\tcase <-ctx.Done():\n\t\t\t\treturn\n\t\t\tcase t.recvBuffer <- msg:\n\t\t\t\tt.sniffer.Add(msg.ToConsensusMsg())\n\t\t\t}\n",
+			New: "\t\t\tselect {\n\t\t\tcase <-ctx.Done():\n\t\t\t\treturn\n\t\t\tcase t.recvBuffer <- msg:\n\t\t\t\tt.sniffer.Add(msg.ToConsensusMsg())\n\t\t\t}\n\n\t\t\tt.setValues(msg)\n"},
+		Mutant{ID: "C04-T9-caches-only-when-buffer-has-room", File: "core/consensus/qbft/transport.go", Expect: "T9",
+			Old: "\t\tcase msg := <-outerBuffer:\n\t\t\tt.setValues(msg)\n",
+			New: "\t\tcase msg := <-outerBuffer:\n\t\t\tif len(t.recvBuffer) < cap(t.recvBuffer) {\n\t\t\t\tt.setValues(msg)\n\t\t\t}\n"},
+		Mutant{ID: "C04-T10-first-deadline-under-next-round", File: "core/consensus/timer/roundtimer.go", Expect: "T10",
+			Old: "\t\tt.firstDeadlines[round] = deadline\n\t}\n\n\ttimer := t.clock.NewTimer(deadline.Sub(t.clock.Now()))\n\n\treturn timer.Chan(), func() { timer.Stop() }\n}\n\n// linearRoundTimer",
+			New: "\t\tt.firstDeadlines[round+1] = deadline\n\t}\n\n\ttimer := t.clock.NewTimer(deadline.Sub(t.clock.Now()))\n\n\treturn timer.Chan(), func() { timer.Stop() }\n}\n\n// linearRoundTimer"},
+		Mutant{ID: "C04-T10-first-deadline-only-from-genesis", File: "core/consensus/timer/roundtimer.go", Expect: "T10",
+			Old: "\t\t\tdeadline = dutyStart.Add(timeout)\n\t\t} else {\n\t\t\tdeadline = t.clock.Now().Add(timeout)\n\t\t}\n\n\t\tt.firstDeadlines[round] = deadline\n\t}\n\n\ttimer := t.clock.NewTimer(deadline.Sub(t.clock.Now()))\n\n\treturn timer.Chan(), func() { timer.Stop() }\n}\n\n// linearRoundTimer",
+			New: "\t\t\tdeadline = dutyStart.Add(timeout)\n\t\t\tt.firstDeadlines[round] = deadline\n\t\t} else {\n\t\t\tdeadline = t.clock.Now().Add(timeout)\n\t\t}\n\t}\n\n\ttimer := t.clock.NewTimer(deadline.Sub(t.clock.Now()))\n\n\treturn timer.Chan(), func() { timer.Stop() }\n}\n\n// linearRoundTimer"})
 }
 
 func c04Transport(c *rt.Ctx) {
 	c.Rule("T9", 1, func() {
+		const (
+			recvBuf = "core/consensus/qbft.transport.recvBuffer"
+			setv    = "static:core/consensus/qbft.transport.setValues"
+		)
 		fn := c.Fn("core/consensus/qbft.transport.ProcessReceives")
-		setv := c.Fn("core/consensus/qbft.transport.setValues")
-		n := 0
-		for _, in := range an.Instrs(fn, false) {
-			// sends to the inner buffer: plain sends and select send states
-			var sendVal ssa.Value
-			var at ssa.Instruction
-			switch x := in.(type) {
+		c.Fn("core/consensus/qbft.transport.setValues")
+		isBuf := func(v ssa.Value) bool {
+			k, _, ok := an.FieldOf(v)
+			return ok && k == recvBuf
+		}
+		// every path of ProcessReceives (following in-package helpers that cache values or hand messages over):
+		// a message handed to the inner buffer has had its values cached before, on that very path
+		x := c04NewExec(c04Cfg{root: fn, isEvent: func(name string) bool { return name == setv }, evInstr: func(in ssa.Instruction) bool {
+			switch s := in.(type) {
 			case *ssa.Send:
-				if k, _, ok := an.FieldOf(x.Chan); ok && k == "core/consensus/qbft.transport.recvBuffer" {
-					sendVal, at = x.X, x
-				}
+				return isBuf(s.Chan)
 			case *ssa.Select:
-				for _, st := range x.States {
-					if st.Dir == types.SendOnly {
-						if k, _, ok := an.FieldOf(st.Chan); ok && k == "core/consensus/qbft.transport.recvBuffer" {
-							sendVal, at = st.Send, x
-						}
+				for _, st := range s.States {
+					if st.Dir == types.SendOnly && isBuf(st.Chan) {
+						return true
 					}
 				}
 			}
-			if at == nil {
-				continue
-			}
-			n++
-			// some call setValues(same msg) dominates the hand-over
-			good := false
-			for _, call := range an.Calls(fn, func(cc *ssa.CallCommon) bool { return cc.StaticCallee() == setv }, false) {
-				ci := call.(ssa.Instruction)
-				if an.Dominates(ci, at) && len(call.Common().Args) >= 2 && an.Equiv(an.Resolve(call.Common().Args[1]), an.Resolve(sendVal)) {
-					good = true
+			return false
+		}})
+		trs := x.run()
+		if x.err != "" {
+			c.Bail("ProcessReceives: %s", x.err)
+		}
+		isBufT := func(t *c04T) bool { return t != nil && t.kind == 's' && t.op == "fld:"+recvBuf }
+		sites := map[ssa.Instruction]string{}
+		var order []ssa.Instruction
+		for _, tr := range trs {
+			for i, e := range tr.evs {
+				var sent []*c04T
+				switch e.kind {
+				case "send":
+					if isBufT(e.args[0]) {
+						sent = append(sent, e.args[1])
+					}
+				case "select":
+					for k, ch := range e.args {
+						if k < len(e.sent) && e.sent[k] != nil && isBufT(ch) {
+							sent = append(sent, e.sent[k])
+						}
+					}
+				}
+				for _, v := range sent {
+					if _, seen := sites[e.in]; !seen {
+						sites[e.in] = ""
+						order = append(order, e.in)
+					}
+					cachedBefore := false
+					for _, j := range tr.calls(setv) {
+						if c := tr.evs[j]; j < i && len(c.args) >= 2 && tr.same(c.args[1], v) {
+							cachedBefore = true
+						}
+					}
+					if !cachedBefore && sites[e.in] == "" {
+						sites[e.in] = "[" + tr.path() + "]"
+					}
 				}
 			}
-			c.Check("ProcessReceives caches values before forwarding", posOf(at), good,
-				"a received message can reach the instance without its values having been cached: a member that did not receive the PRE-PREPARE cannot resolve the value hash of the PREPAREs/COMMITs it counts and its instance aborts with 'unknown value'")
 		}
-		if n == 0 {
+		if len(order) == 0 {
 			c.Bail("ProcessReceives: no hand-over to the inner buffer found")
+		}
+		for _, in := range order {
+			c.Check("ProcessReceives caches values before forwarding", posOf(in), sites[in] == "",
+				"a received message can reach the instance without its values having been cached: a member that did not receive the PRE-PREPARE cannot resolve the value hash of the PREPAREs/COMMITs it counts and its instance aborts with 'unknown value'; path "+sites[in])
 		}
 	})
 	c.Rule("T10", 1, func() {
 		fn := c.Fn("core/consensus/timer.doubleEagerLinearRoundTimer.Timer")
 		const field = "core/consensus/timer.doubleEagerLinearRoundTimer.firstDeadlines"
-		var lks []*ssa.Lookup
-		for _, in := range an.Instrs(fn, false) {
-			if lk, ok := in.(*ssa.Lookup); ok && lk.CommaOk && isFieldMap(field)(lk.X) {
-				lks = append(lks, lk)
+		isMap := isFieldMap(field)
+		x := c04NewExec(c04Cfg{root: fn, evInstr: func(in ssa.Instruction) bool {
+			switch s := in.(type) {
+			case *ssa.MapUpdate:
+				return isMap(s.Map)
+			case *ssa.Lookup:
+				return isMap(s.X)
 			}
+			return false
+		}})
+		trs := x.run()
+		if x.err != "" {
+			c.Bail("Timer: %s", x.err)
 		}
-		if len(lks) != 1 {
-			c.Bail("Timer: expected one comma-ok lookup of firstDeadlines, found %d", len(lks))
-		}
-		lk := lks[0]
-		var okv ssa.Value
-		for _, ref := range *lk.Referrers() {
-			if ex, ok := ref.(*ssa.Extract); ok && ex.Index == 1 {
-				okv = ex
-			}
-		}
-		if okv == nil {
-			c.Bail("Timer: ok of the lookup unused")
-		}
-		newTimer := c.SomeCalls(fn, func(cc *ssa.CallCommon) bool { return cc.IsInvoke() && cc.Method.Name() == "NewTimer" }, "clock.NewTimer", false)
-		good, why := false, "no branch on the first-deadline lookup"
-		for _, cd := range an.CondsOn(fn, okv) {
-			if cd.Other != nil {
+		isMapT := func(t *c04T) bool { return t != nil && t.kind == 's' && t.op == "fld:"+field }
+		// the paths on which the first-deadline lookup for the round missed
+		misses, good, why := 0, true, ""
+		for _, tr := range trs {
+			if tr.exit != "ret" {
 				continue
 			}
-			miss := cd.Succ(false)
-			// from the miss edge every path to NewTimer passes the store firstDeadlines[round] = …
-			if len(miss.Instrs) == 0 {
+			var key, m *c04T
+			for _, e := range tr.evs {
+				if e.kind != "dec" || e.truth || !e.val.is("ext#1") || !e.val.args[0].is("lookup2") || !isMapT(e.val.args[0].args[0]) {
+					continue
+				}
+				m, key = e.val.args[0].args[0], e.val.args[0].args[1]
+			}
+			if key == nil {
 				continue
 			}
-			isStore := func(x ssa.Instruction) bool {
-				mu, ok := x.(*ssa.MapUpdate)
-				return ok && isFieldMap(field)(mu.Map) && an.Equiv(mu.Key, lk.Index)
+			misses++
+			stored := false
+			for _, e := range tr.evs {
+				if e.kind == "mapupdate" && tr.same(e.args[0], m) && tr.same(e.args[1], key) {
+					stored = true
+				}
 			}
-			first := miss.Instrs[0]
-			if isStore(first) {
-				good = true
-				continue
+			if !stored && good {
+				good, why = false, "on the first call for a round the computed deadline is not remembered on the path ["+tr.path()+"]: the restart after a justified PRE-PREPARE does not extend the round and later rounds can never complete"
 			}
-			target := newTimer[0].(ssa.Instruction)
-			path, esc := an.EscapePath(first, isStore, an.PassOpt{ExitAt: func(x ssa.Instruction) bool { return x == target }})
-			good, why = !esc, "on the first call for a round the computed deadline is not remembered on path "+an.PathString(c.P, path)+": the restart after a justified PRE-PREPARE does not extend the round and later rounds can never complete"
 		}
-		c.Check("Timer remembers the first deadline of a round", lk.Pos(), good, why)
+		if misses == 0 {
+			c.Bail("Timer: no path on which a comma-ok lookup of firstDeadlines misses")
+		}
+		c.Check("Timer remembers the first deadline of a round", fn.Pos(), good, why)
 	})
 }
